@@ -571,6 +571,15 @@ func c19run(c *fw.Ctx, idx int) {
 						hist = append(hist, c19op{Op: "AddLoaders(nested)", Loader: active})
 						inner.AddLoaders(ls[active])
 						innerList = append(innerList, active)
+					} else if active+1 < k && r.Intn(2) == 0 {
+						// several loaders in one call (possibly more than the stack holds so far): appended in the order given
+						hist = append(hist, c19op{Op: fmt.Sprintf("AddLoaders(%d loaders at once)", k-active), Loader: active})
+						ml.AddLoaders(ls[active:]...)
+						for a := active; a < k; a++ {
+							outerList = append(outerList, a)
+						}
+						active = k - 1
+						c.Count("addloaders_with_several_loaders", 1)
 					} else {
 						hist = append(hist, c19op{Op: "AddLoaders", Loader: active})
 						ml.AddLoaders(ls[active])
